@@ -356,6 +356,20 @@ def c09_4(ctx):
     fn = ctx.repo.fn('_dates:dt_bump')
     loop = token_loop(fn)
     chain, rows = unit_chain(loop)
+    # the start is promoted to a datetime unless it already is one: a plain date cannot carry the hour/minute/second parts
+    st = [s for s in fn.body if isinstance(s, ast.Assign) and U(s.targets[0]) == 't' and isinstance(s.value, ast.IfExp)] + \
+         [s for s in fn.body if isinstance(s, ast.If) and any(isinstance(a, ast.Assign) and U(a.targets[0]) == 't' and N(a.value) == 'dt(t)' for a in s.body)]
+    ctx.count(1)
+    if st:
+        test = st[0].value.test if isinstance(st[0], ast.Assign) else st[0].test
+        keep = isinstance(st[0], ast.Assign) and N(st[0].value.body) == 't'
+        ok1, _ = prop_equiv(test, 'isinstance(t, datetime.datetime)')
+        ok2, _ = prop_equiv(test, 'not isinstance(t, datetime.datetime)')
+        if not ((keep and ok1) or (not keep and ok2) or (isinstance(st[0], ast.Assign) and N(st[0].value.orelse) == 't' and ok2)):
+            ctx.fail(fn, st[0], 'the start is passed through dt() unless `%s`: only a datetime.datetime may be used as it is (a datetime.date has no time of day, so hour/minute/second parts are lost)' % U(test),
+                     witness="dt_bump(datetime.date(2020, 1, 1), '3h')")
+    else:
+        ctx.fail(fn, fn.node, 'dt_bump no longer promotes its start to a datetime')
     take = [s for s in loop.body if isinstance(s, ast.Assign) and U(s.targets[0]) == 'bmp']
     ctx.count(1, fn.where(loop))
     if not take or N(take[0].value) != 'period.search(bump).group()':
